@@ -56,6 +56,11 @@ def handle (line : String) : String :=
       let mB := match mOut with
         | .err c q => s!"err {c} {hexBytes q}"
         | _ => "na"
+      -- `BINF`: a file that parses but does not load (a builtin with an identifier argument): `--fmt` refuses, file unchanged
+      let isBinf := ((inp.trimAscii.toString.splitOn " ").filter (· ≠ "")).contains "BINF"
+      let (mPrint, mRe, mRePrint) := match isBinf, mOut with
+        | true, .ok _ => ("fmtfail", outcomeStr mOut, hexBytes bs)
+        | _, _ => (mPrint, mRe, mRePrint)
       let model := s!"LEX {mLex} ; PARSE {outcomeStr mOut} ; PRINT {mPrint} ; REPARSE {mRe} ; REPRINT {mRePrint}" ++
         (if isBins then s!" ; BPARSE {mB}" else "")
       -- judges on what the implementation did
@@ -81,6 +86,8 @@ def handle (line : String) : String :=
         | _ => ("na", "na")
       let jC11 := match iOut with
         | some (.ok _) => (match sect secs "PRINT", sect secs "REPRINT" with
+            -- the binary refused to format (a file that does not load): nothing was formatted, nothing to compare
+            | some "fmtfail", _ => "na"
             | some p, some q => (match unhex p, unhex q with
                 | some p, some q => b2s (c11 p q)
                 | _, _ => "FAIL")
